@@ -9,6 +9,7 @@ from pyvc.smt import Obligation, Result, discharge
 from pyvc.par import pmap
 from contracts.evalmodel import EvalModel, SentTok, eval_world
 from contracts.model import ValName
+from checks.structs import Holder
 from spec import semantics as S
 
 def enum_ob(name, ok, where='', **meta):
@@ -325,6 +326,107 @@ def classical_completion(ctx):
     for key, (L, calls, prob) in sorted(fails.items()):
         ctx.bounded_failure('C08.classical.identity-completion', f'{L}: after {calls} and finish(): {prob}', dict(logic=L, calls=calls, problem=prob), instance=key)
 
+def complete_frames_obligation(ctx):
+    """BaseModel._complete_frames interpreted from source on scenario models (frames and the access relation are
+    default-creating maps, as in the constructor): afterwards every world of R has a frame and every frame's world is in R;
+    every frame assigns every atomic / opaque sentence mentioned anywhere (kept if it had a value, the unassigned value
+    otherwise) and knows every predicate; a second call changes nothing"""
+    from pytableaux.models import BaseModel
+    from pyvc.interp import LocalDict
+    fn = BaseModel.__dict__['_complete_frames']; fi = source.of_function(fn); where = ctx.under_contract(fi)
+    fcn = BaseModel.__dict__['_check_not_finished']; ctx.under_contract(source.of_function(fcn))
+    world = World()
+    class DefMap(SymVal):
+        "defaultdict-like: reading a missing key creates the default"
+        def __init__(s, mk, init=None): s.mk = mk; s.d = dict(init or {}); s.touched = []
+        def sym_getitem(s, it, k):
+            if k not in s.d: s.d[k] = s.mk(k)
+            s.touched.append(k)
+            return s.d[k]
+        def sym_setitem(s, it, k, v): s.d[k] = v
+        def sym_iter(s, it): return list(s.d)
+        def sym_contains(s, it, k): return k in s.d
+        def sym_len(s, it): return len(s.d)
+        def sym_getattr(s, it, n):
+            if n == 'items': return Contract(lambda it: GenList(list(s.d.items())), 'dict.items')
+            if n == 'values': return Contract(lambda it: GenList(list(s.d.values())), 'dict.values')
+            if n == 'keys': return Contract(lambda it: GenList(list(s.d)), 'dict.keys')
+            if n == 'get': return Contract(lambda it, k, default=None: s.d.get(k, default), 'dict.get')
+            if n == 'setdefault': return Contract(lambda it, k, default=None: s.d.setdefault(k, default), 'dict.setdefault')
+            if n == 'update':
+                def upd(it, other): s.d.update(dict(other.d if isinstance(other, DefMap) else other))
+                return Contract(upd, 'dict.update')
+            raise Outside(f'mapping.{n}')
+    class FrameM(SymVal):
+        def __init__(s, atomics=None, opaques=None, preds=()):
+            s.atomics = DefMapPlain(atomics or {}); s.opaques = DefMapPlain(opaques or {}); s.predicates = DefMap(lambda k: ('interp', k), {p: ('interp', p) for p in preds})
+        def sym_getattr(s, it, n):
+            if n in ('atomics', 'opaques', 'predicates'): return getattr(s, n)
+            raise Outside(f'Frame.{n}')
+    class DefMapPlain(DefMap):
+        "a plain dict: reading a missing key raises"
+        def __init__(s, init): super().__init__(None, init)
+        def sym_getitem(s, it, k):
+            if k not in s.d: raise PyExc(KeyError, (k,))
+            return s.d[k]
+    class Sent(SymVal):
+        def __init__(s, atomics=(), predicates=()): s.a, s.p = frozenset(atomics), frozenset(predicates)
+        def sym_getattr(s, it, n):
+            if n == 'atomics': return s.a
+            if n == 'predicates': return s.p
+            raise Outside(f'Sentence.{n}')
+    UN = ValName('UNASSIGNED')
+    class ModelM(SymVal):
+        def __init__(s, frames, rworlds, sentences, finished=False):
+            s.frames = DefMap(lambda w: FrameM(), frames); s.R = DefMap(lambda w: set(), {w: set() for w in rworlds}); s.sentences = list(sentences)
+            s.f = dict(_is_frame_complete=False, finished=finished, _finished=finished)
+        def sym_getattr(s, it, n):
+            if n in ('frames', 'R'): return getattr(s, n)
+            if n == 'sentences': return GenList(s.sentences)
+            if n == 'Meta': return Holder(unassigned_value=UN)
+            if n in s.f: return s.f[n]
+            if n == '_check_not_finished':
+                from pyvc.interp import BoundSource
+                return BoundSource(source.of_function(fcn), fcn, BaseModel, s)
+            raise Outside(f'Model.{n}')
+        def sym_setattr(s, it, n, v): s.f[n] = v
+    T_, F_ = ValName('T'), ValName('F')
+    scen = [
+        dict(frames={0: FrameM({'a': T_}), 2: FrameM({'b': F_}, {'o': T_}, ['Q'])}, R=[0, 1], sents=[Sent(['c'], ['P'])]),
+        dict(frames={0: FrameM()}, R=[0], sents=[]),
+        dict(frames={0: FrameM({'a': F_}), 1: FrameM({'a': T_})}, R=[0, 1, 3], sents=[Sent(['a', 'd'], []), Sent([], ['P', 'Q'])]),
+    ]
+    bad = None; und = None
+    for i, sc in enumerate(scen):
+        m = ModelM(sc['frames'], sc['R'], sc['sents'])
+        before = {w: (dict(f.atomics.d), dict(f.opaques.d)) for w, f in sc['frames'].items()}
+        try:
+            prs = explore(lambda path: (lambda it: (it.call_source(fi, fn, BaseModel, [m], {}, recv=m), it.call_source(fi, fn, BaseModel, [m], {}, recv=m)))(Interp(path, world)))
+        except Outside as e:
+            und = f'outside subset: {e}'; break
+        if len(prs) != 1 or prs[0].kind != 'return': bad = dict(scenario=i, outcome=[str(p.kind) + ' ' + str(p.value)[:60] for p in prs]); break
+        worlds = set(sc['frames']) | set(sc['R'])
+        atoms = set().union(*[set(a) for a, o in before.values()]) | set().union(*[x.a for x in sc['sents']]) if before or sc['sents'] else set()
+        opaq = set().union(*[set(o) for a, o in before.values()]) if before else set()
+        preds = set().union(*[x.p for x in sc['sents']]) | {p for f in sc['frames'].values() for p in f.predicates.d} if True else set()
+        probs = []
+        if set(m.frames.d) != worlds: probs.append(f'frames for {sorted(m.frames.d)} but worlds {sorted(worlds)}')
+        if set(m.R.d) != worlds: probs.append(f'R knows {sorted(m.R.d)} but worlds {sorted(worlds)}')
+        for w, f in m.frames.d.items():
+            a0, o0 = before.get(w, ({}, {}))
+            if set(f.atomics.d) != atoms or any(f.atomics.d[k] != a0.get(k, UN) for k in atoms): probs.append(f'atomics at {w}: {f.atomics.d}')
+            if set(f.opaques.d) != opaq or any(f.opaques.d[k] != o0.get(k, UN) for k in opaq): probs.append(f'opaques at {w}: {f.opaques.d}')
+            if set(f.predicates.d) != preds: probs.append(f'predicates at {w}: {sorted(f.predicates.d)} != {sorted(preds)}')
+        if m.f.get('_is_frame_complete') is not True: probs.append('_is_frame_complete not set')
+        if probs: bad = dict(scenario=i, problems=probs[:4]); break
+    if not bad and not und:
+        m = ModelM({0: FrameM()}, [0], [], finished=True)
+        prs = explore(lambda path: Interp(path, world).call_source(fi, fn, BaseModel, [m], {}, recv=m))
+        if not (len(prs) == 1 and prs[0].kind == 'raise'): bad = dict(scenario='finished model', note='a finished model must refuse (IllegalStateError)')
+    if und: return ctx.add_result(Result('C08.complete_frames', 'unknown', detail=und, where=where))
+    ctx.add(enum_ob('C08.complete_frames', bad is None, where=where, cex=bad, scenarios=len(scen),
+                    clause='after _complete_frames: frames and R cover the same worlds; each frame assigns every atomic/opaque seen anywhere (own value kept, else the unassigned value) and knows every predicate; idempotent; refused on a finished model'))
+
 def run(ctx):
     from pytableaux.logics import registry
     ctx.level = 'other'
@@ -346,6 +448,7 @@ def run(ctx):
         for r in res: ctx.add_result(r)
         ctx.functions.update(funcs)
     lookups(ctx)
+    complete_frames_obligation(ctx)
     bounded_models(ctx)
     classical_completion(ctx)
     ctx.replayers['C08.'] = lambda r: replay(dict(obligation=r.name, counterexample=r.cex, meta=r.meta))
